@@ -17,8 +17,10 @@
 (* that hash (sigOK); the beacon share is the sender's valid share for the *)
 (* previous beacon value (randOK).  Honest members sign the block hash H.  *)
 (* Byzantine members may sign another hash, replay another member's        *)
-(* shares, send garbage points or a bad beacon share; outsiders may send   *)
-(* anything.  Every message is filed under H (that is how it reaches this  *)
+(* shares, send garbage points or a bad beacon share, or corrupt the two   *)
+(* shares in a correlated way (swap them; add a point D to one and         *)
+(* subtract it from the other) so that each is invalid although their sum  *)
+(* is the sum of the valid ones; outsiders may send anything.  Every message is filed under H (that is how it reaches this  *)
 (* round).                                                                 *)
 (*                                                                         *)
 (* Handle is the rule the property demands.  AsCoded = TRUE selects what   *)
@@ -39,7 +41,9 @@ Outsider == NMem + 1
 H == 1
 OtherHash == 2
 
-ByzKinds == {"otherHash", "replay", "garbage", "offcurve", "badRand", "emptyRand"}
+ByzKinds == {"otherHash", "replay", "garbage", "offcurve", "badRand", "emptyRand",
+             (* correlated corruptions of the two shares: each field invalid on its own, their sum right *)
+             "swapped", "shiftRandom", "shiftSmall"}
 
 Msg(s, k, src) == [sender |-> s, kind |-> k, src |-> src]
 
